@@ -48,6 +48,10 @@ def monitor(pid, year, base, assign, r, asked):
         errs, ref = monitors.c01(fl, base.requested, r)
         add(errs)
         cnt['ref_evaluations'] = ref.evaluations
+        # the CLI's exit text: "Successfully solved!" <=> verdict, and a failure report names everything
+        if r.exc is None and (not r.verdict or not assign):
+            add(_cli_report(year, base, r))
+            cnt['solves'] += 1
         # no-prompt run on an empty file, and a refusing user at prompt k (k = a few positions)
         n = len(asked)
         for k in sorted(set([0, n // 2])):
@@ -66,6 +70,9 @@ def monitor(pid, year, base, assign, r, asked):
             cnt['solves'] += 1
             errs, ref2 = monitors.c01(fl, base.requested, rr)
             add(errs, dict(refuse_at=k))
+            if rr.exc is None and ((rr.unimpl and rr.need_inputs) or not assign):
+                add(_cli_report(year, base, rr), dict(refuse_at=k))
+                cnt['solves'] += 1
     elif pid == 'C03':
         errs, _ = monitors.c03(fl, r)
         add(errs)
@@ -102,11 +109,52 @@ def monitor(pid, year, base, assign, r, asked):
                 from hv import e4
                 if not any(msg == f'Form {a} is not supported.' for a in e4.ABSENT_FORMS):
                     viols.append(('unexpected-unsupported-form', msg, None))
+    elif pid == 'C15':
+        if r.exc is None and r.verdict:
+            add(c15(year, r))
+            cnt['solved_returns_checked'] = 1
+    elif pid == 'C16':
+        if r.exc is None and r.verdict:
+            errs, n = c16(year, base, assign, r, asked)
+            add(errs)
+            cnt['solves'] += n
+            cnt['pairs'] = n
+    elif pid == 'C09':
+        add(c09_consulted(year, r))
     elif pid == 'C12':
         add(monitors.c12_store(r))
     elif pid == 'C13':
         add(monitors.c13(r, {}))
     return viols, cnt
+
+
+def _cli_report(year, base, r):
+    import os
+    from hv import cli
+    errs = []
+    with cli.workdir() as d:
+        inp = os.path.join(d, 'in.ini')
+        cli.write_inputs(inp, r.final_inputs)
+        res = cli.solve_cli(year, base.requested, inp)
+    out = res['stdout']
+    if res['exc'] is not None:
+        return [('cli-raised', f'habutax solve raised {res["exc"]} where Solver.solve() returned {r.verdict}')]
+    said_ok = 'Successfully solved!' in out
+    if said_ok != bool(r.verdict):
+        errs.append(('cli-verdict', f'CLI printed {"success" if said_ok else "failure"} but the verdict is {r.verdict}'))
+    if not r.verdict:
+        head = out.split('\n[')[0]
+        for u in r.unimpl:
+            if f'- {u}' not in head:
+                errs.append(('cli-report', f'unimplemented line {u} is not named in the failure report'))
+        for dep, ws in list(r.need_inputs.items()) + list(r.blocked.items()):
+            ok = False
+            for line in head.split('\n'):
+                if line.startswith(dep + ' (needed by: '):
+                    ok = all(w in line for w in ws)
+            if not ok:
+                errs.append(('cli-report', f'{dep} (needed by {sorted(ws)[:3]}) is not named in the failure report'))
+    return errs
 
 
 def _diff(a, b):
@@ -129,3 +177,181 @@ def _diff(a, b):
     if a.forms != b.forms:
         out.append(f'forms {a.forms} vs {b.forms}')
     return '; '.join(out[:5])
+
+
+# --------------------------------------------------------------------------
+# C15: balance identities and non-negative lines of solved returns
+NONNEG = {
+    '1040': ['1z', '9', '12', '14', '15', '16', '18', '19', '20', '21', '22', '24', '25a', '25b', '25c', '25d', '26', '28', '32', '33', '34', '35a', '36', '37'],
+    '1040_sa': ['1', '3', '4', '5d', '5e', '7', '10', '14', '17'],
+    '1040_s1': ['10', '26'],
+    '1040_s3': ['1', '7', '8'],
+    '1040_s8812': ['5', '8', '10', '11', '12', '14', '27'],
+    '8606': ['3', '5', '9', '10', '11', '12', '13', '14', '15a', '15c', '18', 'taxable_amount'],
+    '8889': ['2', '3', '5', '6', '8', '12', '13'],
+    '8995': ['4', '5', '10', '13', '14', '15'],
+    '8959': ['4', '6', '7', '18', '22', '24'],
+    '1040_qualdiv_capgain_tax_wkst': ['1', '4', '5', '9', '10', '18', '21', '22', '23', '24', '25'],
+    'nc_d-400': ['11', '15', '17', '19', '23', '25', '26a', '27', '28', '34'],
+    'nc_d-400_sa': ['deduction', '10'],
+}
+
+
+def _f(sol, sec, k):
+    v = sol.get(sec, {}).get(k)
+    return float(v) if v not in (None, '') else 0.0
+
+
+def c15(year, r):
+    errs = []
+    sol = r.solution
+    if '1040' in sol:
+        g = lambda k: _f(sol, '1040', k)
+        if abs((g('34') - g('37')) - (g('33') - g('24'))) > 0.005:
+            errs.append(('1040-balance', f'overpayment {g("34")} - owed {g("37")} != payments {g("33")} - tax {g("24")}'))
+        if min(g('34'), g('37')) > 0.0:
+            errs.append(('1040-both-positive', f'overpayment {g("34")} and amount owed {g("37")} are both positive'))
+        if abs(g('35a') + g('36') - g('34')) > 0.005:
+            errs.append(('1040-refund-split', f'refund {g("35a")} + applied {g("36")} != overpayment {g("34")}'))
+    if 'nc_d-400' in sol:
+        g = lambda k: _f(sol, 'nc_d-400', k)
+        s = sol['nc_d-400']
+        if g('25') >= g('19'):
+            if '28' in s and abs(g('28') - (g('25') - g('19'))) > 0.5:
+                errs.append(('nc-balance', f'line 28 {g("28")} != 25 {g("25")} - 19 {g("19")}'))
+            if '34' in s and abs(g('34') + g('33') - g('28')) > 0.5:
+                errs.append(('nc-refund-split', f'34 {g("34")} + 33 {g("33")} != 28 {g("28")}'))
+            if '26a' in s and g('26a') > 0:
+                errs.append(('nc-both-positive', f'tax due {g("26a")} although payments cover the tax'))
+        else:
+            if '26a' in s and abs(g('26a') - (g('19') - g('25'))) > 0.5:
+                errs.append(('nc-balance', f'line 26a {g("26a")} != 19 {g("19")} - 25 {g("25")}'))
+            if '27' in s and abs(g('27') - (g('26a') + g('26d') + g('26e'))) > 0.5:
+                errs.append(('nc-due-total', f'27 {g("27")} != 26a+26d+26e'))
+            if '28' in s and g('28') > 0:
+                errs.append(('nc-both-positive', f'overpayment {g("28")} although tax exceeds payments'))
+    for sec, kv in sol.items():
+        fn = sec.split(':')[0]
+        for k in NONNEG.get(fn, ()):
+            if k in kv and kv[k] not in ('',):
+                try:
+                    x = float(kv[k])
+                except ValueError:
+                    continue
+                if x < 0:
+                    errs.append((f'negative|{fn}.{k}', f'{sec}.{k} = {kv[k]} is negative'))
+        if fn == '8606' and '10' in kv and not (0.0 <= float(kv['10']) <= 1.0):
+            errs.append(('ratio|8606.10', f'{sec}.10 = {kv["10"]} is not within [0, 1]'))
+    return errs
+
+
+# --------------------------------------------------------------------------
+# C16: metamorphic relations
+DELTAS = [1.0, 50.0, 1000.0, 100000.0]
+WITHHOLDING = ['w-2:*.box_2', '1099-r:*.box_4', '1099-div:*.box_4', '1099-int:*.box_4', '1040.other_federal_withholding',
+               '1040.estimated_tax_payments']
+EXPENSES = ['1040_sa.medical_dental_expenses', '1040_sa.state_local_real_estate_taxes', '1040_sa.state_local_personal_property_taxes',
+            '1040_sa.other_taxes_amount', '1040_sa.charitable_cash_check', '1040_sa.charitable_other_than_cash_check',
+            '1040_sa.charitable_carryover', '1040_sa.other_itemized', '1040_sa.other_mortgage_interest', '1098:*.box_1',
+            '1040_s1.educator_expenses', '1040_s1.alimony_paid', '1040.charitable_contributions_std_ded']
+LISTING = ('1040_sb',)
+
+
+def _match(name, pats):
+    import fnmatch
+    return any(fnmatch.fnmatchcase(name, p) for p in pats)
+
+
+def c16(year, base, assign, r, asked):
+    import itertools
+    errs = []
+    n = 0
+    sol = r.solution
+    t24 = _f(sol, '1040', '24')
+    net = _f(sol, '1040', '34') - _f(sol, '1040', '37')
+    names = [a[0] for a in asked]
+    # --- renumbering of multi-copy input forms
+    groups = {}
+    for sec in sol:
+        if ':' in sec and sec.split(':')[1].isdigit():
+            groups.setdefault(sec.split(':')[0], []).append(sec)
+    perms = []
+    for fn, secs in groups.items():
+        secs = sorted(secs)
+        if 2 <= len(secs) <= 3:
+            for p in itertools.permutations(secs):
+                if list(p) != secs:
+                    perms.append(dict(zip(secs, p)))
+    for ren in perms:
+        rr, _ = e3.run_return(year, base, assign, rename=ren)
+        n += 1
+        if rr.exc is not None or not rr.verdict:
+            errs.append(('renumbering-changes-verdict', f'renumbering {ren}: {rr.outcome_class()}'))
+            continue
+        inv = {v: k for k, v in ren.items()}
+        for sec in sorted(set(sol) | set(rr.solution)):
+            if sec.split(':')[0] in LISTING:
+                a = sorted(v for k, v in sol.get(sec, {}).items())
+                b = sorted(v for k, v in rr.solution.get(sec, {}).items())
+                if a != b:
+                    errs.append(('renumbering-changes-listing', f'renumbering {ren}: {sec} differs beyond the order of rows'))
+                continue
+            # section sec of the renumbered run received the answers of ren[sec]
+            other = ren.get(sec, sec)
+            if rr.solution.get(sec) != sol.get(other):
+                x, y = rr.solution.get(sec, {}), sol.get(other, {})
+                d = [k for k in sorted(set(x) | set(y)) if x.get(k) != y.get(k)][:3]
+                errs.append(('renumbering-changes-values', f'renumbering {ren}: {sec} lines {d} differ, e.g. {x.get(d[0]) if d else None!r} vs {y.get(d[0]) if d else None!r}'))
+                break
+    # --- monotonicity and withholding
+    for name in names:
+        kind = None
+        if _match(name, ['w-2:*.box_1']):
+            kind = 'wages'
+        elif _match(name, WITHHOLDING):
+            kind = 'withholding'
+        elif _match(name, EXPENSES):
+            kind = 'expense'
+        if kind is None:
+            continue
+        for dlt in DELTAS:
+            rr, _ = e3.run_return(year, base, assign, bump={name: dlt})
+            n += 1
+            if rr.exc is not None or not rr.verdict:
+                continue
+            s2 = rr.solution
+            if kind == 'wages' and _f(s2, '1040', '24') < t24 - 0.005:
+                errs.append((f'wages-lower-tax|{name.split(".")[1]}', f'{name} +{dlt}: total tax {t24} -> {_f(s2, "1040", "24")}'))
+            if kind == 'expense' and _f(s2, '1040', '24') > t24 + 0.005:
+                errs.append((f'expense-raises-tax|{name}', f'{name} +{dlt}: total tax {t24} -> {_f(s2, "1040", "24")}'))
+            if kind == 'withholding':
+                net2 = _f(s2, '1040', '34') - _f(s2, '1040', '37')
+                if abs((net2 - net) - dlt) > 0.005:
+                    errs.append((f'withholding-not-dollar-for-dollar|{name.split(".")[1] if ":" in name else name}', f'{name} +{dlt}: refund-minus-owed {net} -> {net2}'))
+    return errs, n
+
+
+# --------------------------------------------------------------------------
+# C09 (A): a consulted affirmative gate never solves
+_GATES = None
+
+
+def gates():
+    global _GATES
+    if _GATES is None:
+        import json, os
+        p = os.path.join(hv.VERIF, 'hv', 'gates.json')
+        _GATES = json.load(open(p)) if os.path.exists(p) else dict(entries=[], unconditional=[])
+    return _GATES
+
+
+def c09_consulted(year, r):
+    errs = []
+    if r.exc is not None or not r.verdict:
+        return errs
+    unc = set((y, n, v) for y, n, v in gates().get('unconditional', []))
+    for a in r.log:
+        for kind, name, st, val in a.reads:
+            if kind == 'i' and st == 'ok' and val is True and (year, name, 'yes') in unc:
+                errs.append((f'gate-solved|{name}', f'{a.line} read {name} = yes (a declared unsupported situation) and the return still solved'))
+    return errs
